@@ -214,6 +214,14 @@ def judge_sites(repo, cg, rep, reached, parent, sites, unaudited, distinct_ext, 
                 if on_module and (nonconst or q != "builtins.getattr"):
                     v = "forbidden"
                     q = f"{q.split('.')[1]}(<module>, {'<computed name>' if nonconst else src(s.node.args[1])})"
+            if q.startswith("codecs.") and isinstance(s.node, ast.Call):
+                # codec lookup imports encodings.<name>: inert only for a literal codec name
+                enc = s.node.args[1] if len(s.node.args) > 1 else next((k.value for k in s.node.keywords if k.arg == "encoding"), None)
+                name0 = s.node.args[0] if s.node.args else None
+                lit = (enc is None and q.split(".")[1] in ("encode", "decode")) or isinstance(enc, ast.Constant) or (q.split(".")[1] in ("lookup", "getencoder", "getdecoder", "getreader", "getwriter") and isinstance(name0, ast.Constant))
+                v = "inert" if lit else "forbidden"
+                if not lit:
+                    q = f"{q}(<codec name computed from data>)"
             if (f.qualname, q) in EXEMPT_CALLS:
                 v = "inert"
             verdicts.append((v, q))
@@ -221,11 +229,16 @@ def judge_sites(repo, cg, rep, reached, parent, sites, unaudited, distinct_ext, 
             name = qm.rsplit(".", 1)[1]
             distinct_ext.add(qm)
             v = classify_method(name)
+            if name in ("encode", "decode") and isinstance(s.node, ast.Call) and s.node.args and not isinstance(s.node.args[0], ast.Constant):
+                v = "forbidden"
+                qm = f"{qm}(<codec name computed from data>)"
             if v == "forbidden" and qm.split(".")[0] in ("str", "list", "dict", "set", "tuple", "bytes", "int", "value", "List", "Dict", "Set", "Tuple", "Optional", "Iterable", "Iterator", "Sequence", "FrozenSet", "NoneType", "bool", "float"):
                 v = "inert"  # e.g. dict.get / list.remove on a builtin container: the method name collides, the receiver type rules it out
             verdicts.append((v, qm))
         for name in s.untyped_methods:
             v = classify_method(name)
+            if name in ("encode", "decode") and isinstance(s.node, ast.Call) and s.node.args and not isinstance(s.node.args[0], ast.Constant):
+                v = "forbidden"
             if v == "unaudited" and s.targets:
                 v = "inert"  # resolved (by name) to fickling methods, which are explored themselves
             if v == "forbidden" and s.targets and name in ("run", "load", "start", "write", "call"):
